@@ -459,11 +459,12 @@ func (c12) Run(t *tape.Tape, tier Tier) *Result {
 	// type names and innermost stack functions of the visible layers at the origin
 	origin := obs.Tree(ts.e0, true)
 	ts.run(res, "C12", func(e error, where string, p *world.Process, wire []byte) {
+		// safe details are read first, the report (which formats the error) afterwards
+		all, _ := obs.AllSafeDetails(e)
 		ev, extras, pn := obs.Report(e)
 		if pn != "" {
 			return
 		}
-		all, _ := obs.AllSafeDetails(e)
 		hay := ev + "\x1e" + strings.Join(all, "\x1e")
 		for k, v := range extras {
 			hay += "\x1e" + k + "=" + v
@@ -480,12 +481,17 @@ func (c12) Run(t *tape.Tape, tier Tier) *Result {
 				res.add(Violation{Prop: "C12", Oracle: "type-name-retained", Culprit: typeOfLayer(n), Expected: n.TypeName + " in the 'error types' extra", Observed: short(types), Where: where})
 			}
 			if n.Stack != "" && n.Stack != "(empty)" {
-				lines := strings.Split(strings.TrimSpace(n.Stack), "\n")
-				last := strings.Split(lines[len(lines)-1], "|")
-				if len(last) > 1 && last[1] != "" {
-					fn := jsonEsc(last[1])
-					if !strings.Contains(ev, fn) {
-						res.add(Violation{Prop: "C12", Oracle: "stack-frame-retained", Culprit: typeOfLayer(n), Expected: "function " + last[1] + " in the event's frames", Observed: "absent", Where: where})
+				// every frame of the captured stack (function and line) must be in the event
+				for _, line := range strings.Split(strings.TrimSpace(n.Stack), "\n") {
+					f := strings.Split(line, "|")
+					if len(f) < 5 || f[1] == "" {
+						continue
+					}
+					needle := fmt.Sprintf(`"function":"%s"`, jsonEsc(f[1]))
+					lineno := fmt.Sprintf(`"lineno":%s`, f[4])
+					if !strings.Contains(ev, needle) || !strings.Contains(ev, lineno) {
+						res.add(Violation{Prop: "C12", Oracle: "stack-frame-retained", Culprit: typeOfLayer(n), Expected: "frame " + f[1] + ":" + f[4] + " in the event's frames", Observed: "absent", Where: where})
+						break
 					}
 				}
 			}
